@@ -32,7 +32,7 @@ RealAcct(ev, GG) ==
    ak |-> {GG[i] : i \in {j \in 1..Len(GG) : ev.ak[j] = 1}}]
 EntriesOf(ev) == {[p |-> ev.pods[i].p, st |-> ev.pods[i].st, grp |-> ev.pods[i].grp, gh |-> ev.pods[i].gh, nom |-> ev.pods[i].nom] : i \in 1..Len(ev.pods)}
 PresentOf(ev) == {[p |-> ev.present[i].p, st |-> ev.present[i].st, grp |-> ev.present[i].grp] : i \in 1..Len(ev.present)}
-NoInfo == [op |-> "Init", call |-> "None", err |-> "", mm |-> 0, units |-> TRUE, ghostb |-> FALSE, pipeb |-> FALSE]
+NoInfo == [op |-> "Init", call |-> "None", err |-> "", mm |-> 0, dec |-> 1, units |-> TRUE, ghostb |-> FALSE, pipeb |-> FALSE]
 
 \* a nominated (Pipelined) pod that asks for GPU (fraction or whole) is accounted on the node
 PipeGpu(X) == \E e \in X : e.st = "Pipelined" /\ kinds[e.p].k \in {"frac", "whole"}
@@ -60,7 +60,7 @@ TraceStep ==
      /\ E' = EntriesOf(ev)
      /\ present' = PresentOf(ev) /\ npresent' = ev.npresent
      /\ vec' = [idle |-> Vm(ev.idlev), used |-> Vm(ev.usedv), rel |-> Vm(ev.relv)]
-     /\ info' = [op |-> ev.op, call |-> ev.call, err |-> ev.err, mm |-> ev.mm, ghostb |-> \E e \in E : e.gh = 1, pipeb |-> PipeGpu(E),
+     /\ info' = [op |-> ev.op, call |-> ev.call, err |-> ev.err, mm |-> ev.mm, dec |-> ev.dec, ghostb |-> \E e \in E : e.gh = 1, pipeb |-> PipeGpu(E),
                  units |-> \A f \in {"idle", "used", "rel", "idlev", "usedv", "relv"} : ev[f].gpu % 1000 = 0]
      /\ act' = Lbl(ev.op, ev.call, ev.p, ev.st, ev.grp)
   /\ l' = l + 1
@@ -97,7 +97,11 @@ C14_NodeVector == vec.idle = A.idle /\ vec.used = A.used /\ vec.rel = A.rel
 D_Units == info.units
 D_NoError == info.err = ""
 D_Drift == pred = A                 \* the transcription, applied to the previous real state, predicts the real state
-D_Model == info.mm = 0              \* edges mode: the real state equals the model state of the replayed behaviour
+D_Model == info.mm = 0              \* (reserved)
+\* the placement decision of the replayed operation (allocate vs nominate, on these GPU groups) is the
+\* one the REAL fit functions take in the real state: C02 verdicts on replayed model behaviours are
+\* therefore verdicts on decisions of the real code
+D_Decision == info.dec = 1
 
 (* Triage pass (st_nodeacct.py): one TLC run evaluates every predicate in every recorded state and
    prints the failing ones; the driver then confirms one scenario per distinct signature with the
@@ -119,6 +123,7 @@ Failing ==
   \cup F("D_NoError", D_NoError)
   \cup F("D_Drift", D_Drift)
   \cup F("D_Model", D_Model)
+  \cup F("D_Decision", D_Decision)
 Triage ==
   IF Failing = {} THEN TRUE
   ELSE PrintT("VERDICT " \o ToJson(
